@@ -69,6 +69,74 @@ fn ew_scenario_tracked(tag: &str, cfg: EwCfg, script: Vec<EwOp>, env: EwEnv, d: 
     Scenario { name, d, run: Box::new(run) }
 }
 
+
+/// Forged fragment sets against a lone receiving HalfConnection: every packet shape the parser and
+/// `datagram_is_valid` accept (1-4 claimed fragments, full-size fragments before the last, a last
+/// fragment of 0 / 1 / 724 / 1447 / 1448 bytes), every arrival order of the fragments, one of them
+/// duplicated, then either completed, delivered and released, or left partial; a second packet of the
+/// same shape follows, a sync frame then pushes the window over whatever is left, and the connection
+/// is dropped. All of it is free choice, enumerated completely.
+fn forged_reassembly() -> Scenario {
+    use uflow::verif::frame::{DataFrame, Datagram, SyncFrame};
+    const FRAG: usize = 1448;
+    const LAST: [usize; 5] = [0, 1, 724, 1447, 1448];
+    let run = move |ch: &mut Chooser| -> ExecResult {
+        let nfrag = 1 + ch.free(4);
+        let last_len = LAST[ch.free(LAST.len())];
+        // arrival order: successive picks from the remaining fragments; the last pick may be "withhold" (packet stays partial)
+        let mut remaining: Vec<usize> = (0..nfrag).collect();
+        let mut order = Vec::new();
+        while !remaining.is_empty() {
+            let k = ch.free(remaining.len() + if remaining.len() == 1 && nfrag > 1 { 1 } else { 0 });
+            if k == remaining.len() { break; }
+            order.push(remaining.remove(k));
+        }
+        let dup = ch.free(order.len() + 1);   // position after which the fragment just handed over is handed over again
+        let second = ch.free(2) == 1;         // a second packet of the same shape follows on the same channel
+        let push = ch.free(2) == 1;           // a sync frame pushes the window past everything before teardown
+        ch.reserve(4200);
+        let what = format!("forged packet of {} fragments (last one {} B), arrival order {:?}{}{}{}", nfrag, last_len, order, if dup > 0 { format!(", fragment {} twice", order[dup - 1]) } else { String::new() }, if second { ", followed by a second packet" } else { "" }, if push { ", window pushed past by a sync frame" } else { "" });
+        let (delivered, rep) = alloc::tracked(|| {
+            uflow::verif::set_time_ms(0); uflow::verif::seed(5); uflow::verif::set_fuel(2_000_000);
+            let cfg = LwCfg { pwin: 4, fwin: 64, rx_alloc: [100_000, 100_000], ..LwCfg::small() };
+            let mut hc = uflow::verif::HalfConnection::new(cfg.half(0));
+            let p = hc.verif_probe();
+            let (pb, mut fid) = (p.rx_packet_base, p.rx_frame_base);
+            let mut delivered = 0usize;
+            let mut now = 0u64;
+            let mut hand = |hc: &mut uflow::verif::HalfConnection, pid: u32, f: usize, fid: &mut u32, delivered: &mut usize, now: &mut u64| {
+                let len = if f + 1 == nfrag { last_len } else { FRAG };
+                let dg = Datagram { sequence_id: pid, channel_id: 3, window_parent_lead: 0, channel_parent_lead: 0, fragment_id: f as u16, fragment_id_last: (nfrag - 1) as u16, data: vec![f as u8 + 1; len].into_boxed_slice() };
+                hc.handle_data_frame(DataFrame { sequence_id: *fid, nonce: false, datagrams: vec![dg] });
+                *fid = fid.wrapping_add(1);
+                *now += 20; uflow::verif::set_time_ms(*now);
+                hc.step();
+                let mut ps = PS(vec![]); hc.receive(&mut ps); *delivered += ps.0.len(); drop(ps);
+                let mut fs = FS(vec![]); hc.flush(&mut fs); drop(fs);
+            };
+            for (i, &f) in order.iter().enumerate() {
+                hand(&mut hc, pb, f, &mut fid, &mut delivered, &mut now);
+                if dup == i + 1 { hand(&mut hc, pb, f, &mut fid, &mut delivered, &mut now); }
+            }
+            if second { for f in 0..nfrag { hand(&mut hc, (pb + 1) & 0xFFFFF, f, &mut fid, &mut delivered, &mut now); } }
+            if push {
+                hc.handle_sync_frame(SyncFrame { next_frame_id: Some(fid), next_packet_id: Some((pb + 3) & 0xFFFFF) });
+                hc.step(); let mut ps = PS(vec![]); hc.receive(&mut ps); delivered += ps.0.len(); drop(ps);
+            }
+            drop(hc);
+            delivered
+        });
+        uflow::verif::set_fuel(u64::MAX);
+        let complete = order.len() == nfrag;
+        let mut violations = judge(&rep, &what);
+        let expect = complete as usize + second as usize;
+        if delivered != expect { violations.push(viol("C19.forged-delivery", "C19.forged-delivery".into(), format!("{}: {} packets delivered, expected {}", what, delivered, expect))); }
+        ExecResult { violations, panic: None, outcome: (nfrag as u64) << 32 ^ (last_len as u64) << 16 ^ (delivered as u64) << 8 ^ (rep.peak_bytes as u64 >> 8) << 40 ^ (complete as u64) << 1 ^ push as u64, states: vec![], transitions: (order.len() + dup.min(1)) as u64, witnesses: 0,
+                     sample: if nfrag == 2 && last_len == 0 && dup == 0 && !second && !push { Some(format!("{}: allocations {}, peak {} B, live after drop {}", what, rep.allocs, rep.peak_bytes, rep.live_bytes)) } else { None } }
+    };
+    Scenario { name: "C19.forged-reassembly|nfrag1-4|last0.1.724.1447.1448|all-orders|dup|second|push".into(), d: 0, run: Box::new(run) }
+}
+
 pub fn build(quick: bool) -> PropRun {
     let mut scs = Vec::new();
     use SendMode::*;
@@ -107,9 +175,10 @@ pub fn build(quick: bool) -> PropRun {
         env.fates = DF_BASIC; env.deltas = &[100, 2000]; env.fair_delta = 500;
         scs.push(ew_scenario_tracked(&format!("C19.ew.{}", sname), cfg, script, env, if quick { 1 } else { 2 }, if quick { 14 } else { 30 }));
     }
+    scs.push(forged_reassembly());
     PropRun { level: "fault_enumeration", scenarios: scs, units: vec![], replay_case: None, summary: Summary {
         rule: "link-world and endpoint-world executions (deviation-bounded fates/timings; the point at which every uflow object is dropped is a completely enumerated free choice) run under a checking global allocator: every release is compared with the size/alignment of its allocation, unknown releases are counted, and live bytes must return to zero after teardown; distinct = distinct (outcome, peak heap class)".into(),
-        bounds: json!({"packet_sizes": sizes, "paths": ["delivered", "skipped by a later packet", "window advanced over a partial packet", "dropped mid-transfer at every round", "client/server dropped in every lifecycle state"], "d": if quick { 1 } else { 2 }}),
+        bounds: json!({"packet_sizes": sizes, "paths": ["delivered", "skipped by a later packet", "window advanced over a partial packet", "dropped mid-transfer at every round", "client/server dropped in every lifecycle state", "forged fragment sets: 1-4 fragments x last fragment 0/1/724/1447/1448 B x every arrival order x duplicate x partial/complete x window pushed past"], "d": if quick { 1 } else { 2 }}),
         assumptions: vec!["the allocator sees every allocation of the thread inside the session, the harness's own included; the harness's allocations are made by std collections whose layouts are correct, so a mismatch is attributed to uflow (its only unsafe re-boxing site is FragmentBuffer::finalize)".into(),
                           "requested sizes are compared, not allocator-internal size classes".into()],
         witness_names: vec![], extra: json!({}), exhaustive: true } }
